@@ -259,9 +259,27 @@ def tiling(chk, prog):
     sizes = [0, 1, 2, 3, 4, 5, 6, 7, 8, 9, 255, 256, 65536, 2 ** 31 - 1, -1, -2, -3, -4, -5, -8, -(2 ** 31)]
     rems = sorted({(sz.to_bytes(4, "big", signed=True) + bytes([bytepred.FILL]) * 9)[:n] for sz in sizes for n in range(0, 13)})
     cases = []        # (conds, kind, piece term | None, new state term | None)
+    def pieces_of(ret):
+        """payload terms of the records the function appends after the loop before returning `ret`, or None"""
+        recs = listalg.seq(ret)
+        if recs is None or not recs or recs[0] != ("atom", R):
+            return None
+        out = []
+        for k, r in recs[1:]:
+            if not (k == "elem" and r[0] == "adt" and r[1] == V + "record::Record" and r[3][0][1][0] == "adt" and r[3][0][1][2] == "Borrowed"):
+                return None
+            out.append(r[3][0][1][3][0][1])
+        return out
+    normal_ret = None
+    try:
+        normal_ret = loops.exit_value(prog, fn, lp)
+    except sym.Undecided:
+        pass
     for conds, kind, val in lp["paths"]:
         if kind == "exit:normal":
-            cases.append((conds, "exit", None, None))
+            cases.append((conds, "exit", normal_ret, None))
+        elif kind == "exit:other" and isinstance(val, tuple) and val and val[0] == "ret" and val[2] is not None:
+            cases.append((conds, "exit", val[2], None))          # `break`: what the function returns from here
         elif kind == "next":
             for c2, v in loops.split_cases(val):
                 recs = listalg.seq(v[role["R"]])
@@ -273,7 +291,7 @@ def tiling(chk, prog):
                 cases.append((tuple(conds) + tuple(c2), "next", piece, v[role["S" if slice_form else "O"]]))
         else:
             chk.ob("R-LIN", SPLIT, False, "the loop can be left in an unexpected way (%s)" % kind, w, key="exit:" + kind)
-    chk.floor("splitting cases", sum(1 for c in cases if c[1] == "next"), 2)
+    chk.floor("splitting cases", sum(1 for c in cases if c[1] == "next"), 1)
     bad, undecided, n_worlds = None, None, 0
     prefixes = [b""] if slice_form else [b"", b"\x00\x00\x01"]
     for pre in prefixes:
@@ -310,8 +328,27 @@ def tiling(chk, prog):
                     break
                 kind, piece, nxt = live[0]
                 if kind == "exit":
-                    if len(rem) != 0:
-                        bad = "the loop ends although %r remains" % rem
+                    # leaving the loop: whatever the function appends afterwards must be exactly the remainder as one final
+                    # record, and only when the specification makes the whole remainder one record (or nothing remains)
+                    extra = None
+                    if piece is not None:
+                        for cc2, vv2 in loops.split_cases({0: piece}):
+                            okc = True
+                            for c in cc2:
+                                try:
+                                    okc = okc and ((it.ev(c[0]) == c[1]) if len(c) == 2 else any(lo <= it.iv(c[0]) <= hi for lo, hi in c[2]))
+                                except bytepred.Undefined:
+                                    okc = False
+                            if okc:
+                                ps = pieces_of(vv2[0])
+                                extra = None if ps is None else [it.sv(x) for x in ps]
+                                break
+                    if extra is None:
+                        bad = "what is returned when the loop ends on %r is not the records plus final records" % rem
+                        break
+                    want_extra = [] if len(rem) == 0 else ([rem] if expected(rem) == len(rem) else None)
+                    if (not slice_form and extra != [] and len(rem) != 0) or extra != want_extra:
+                        bad = "the loop ends on remaining bytes %r and the function then appends %r (expected %s)" % (rem, extra, want_extra if want_extra is not None else "another iteration")
                         break
                     continue
                 if len(rem) == 0:
@@ -343,8 +380,8 @@ def tiling(chk, prog):
                "rest; the loop ends exactly when nothing remains (%d representative remainders: every ordering of length, 4 and 4 + |size|, positive, negative and extreme sizes)" % n_worlds if bad is None else
                "records do not tile the bytes: %s" % bad, w, key="step")
     chk.notes["tiling representatives"] = n_worlds
-    try:
-        ret = loops.exit_value(prog, fn, lp)
-        expect(chk, "R-WIRE", SPLIT, ret, R, w, "returns the records in order")
-    except sym.Undecided as e:
-        chk.blind("R-LIN", SPLIT, "result undecided: %s" % e, w)
+    if normal_ret is None:
+        chk.blind("R-LIN", SPLIT, "result at the loop's normal exit undecided", w)
+    else:
+        ps = [pieces_of(x) for x in sym._leaves(normal_ret, [])]
+        chk.ob("R-WIRE", SPLIT, all(p is not None for p in ps), "returns the records in order (plus, at most, final records decided above)", w, key="returns the records in order")
